@@ -250,8 +250,11 @@ class KMeans(sk_cluster.KMeans, DiffprivlibMixin):
             noisy_sum = np.zeros_like(cluster_sum)
 
             for i in range(dims):
+                # A record that changes cluster is removed from one cluster's sum and added to another's, moving each
+                # sum by up to max(|lower|, |upper|), which exceeds the diameter when the bounds do not straddle zero
                 laplace_mech = LaplaceBoundedDomain(epsilon=epsilon_i,
-                                                    sensitivity=self.bounds[1][i] - self.bounds[0][i],
+                                                    sensitivity=max(abs(self.bounds[0][i]), abs(self.bounds[1][i]),
+                                                                    self.bounds[1][i] - self.bounds[0][i]),
                                                     lower=noisy_count * self.bounds[0][i],
                                                     upper=noisy_count * self.bounds[1][i], random_state=random_state)
                 noisy_sum[i] = laplace_mech.randomise(cluster_sum[i])
